@@ -762,6 +762,51 @@ func visoHuge(o *out, r *rng, n int) {
 	}
 }
 
+// visoBig: trees with more than a thousand directories (path tables of many sectors, directory numbers
+// beyond one byte, parents far from their children). The Lean model's layout arithmetic is cubic in the
+// number of directories, so these images are judged by the independent reader alone: structurally valid,
+// both hierarchies equal to the source tree, the same image when opened again.
+func visoBig(o *out, r *rng, ndirs int) {
+	t := &tree{}
+	t.add(tnode{path: "/", kind: 'd', mtime: genMtime(r)})
+	t.add(tnode{path: "/b", kind: 'd', mtime: genMtime(r)})
+	dirs := []string{"/b"}
+	for i := 0; len(dirs) < ndirs; i++ {
+		parent := dirs[0]
+		if r.chance(60) {
+			parent = dirs[r.intn(len(dirs))]
+		}
+		if strings.Count(parent, "/") > 6 {
+			continue
+		}
+		p := parent + fmt.Sprintf("/d%04d%s", i, strings.Repeat("q", r.intn(4)))
+		dirs = append(dirs, p)
+		t.add(tnode{path: p, kind: 'd', mtime: genMtime(r)})
+		if r.chance(12) {
+			t.add(tnode{path: p + "/f.bin", kind: 'f', size: int64(r.pick(0, 1, 2048, 2049, 5000)), seed: int64(r.intn(250)), mtime: genMtime(r)})
+		}
+	}
+	ps3 := r.chance(50)
+	if ps3 {
+		addPS3Game(r, t, "/b", "BLES00001")
+	}
+	withTempRoot(func(root string) {
+		if err := t.materialize(root); err != nil {
+			o.notes = append(o.notes, "materialize: "+err.Error())
+			return
+		}
+		impl, _ := runViso(root, visoCase{t: t, dir: "/b", ps3: ps3, full: false})
+		var keep []string
+		for _, tok := range strings.Fields(impl) {
+			if strings.HasPrefix(tok, "valid=") || strings.HasPrefix(tok, "tree=") || strings.HasPrefix(tok, "again=") || strings.Contains(tok, "PANIC") || tok == "openerr" {
+				keep = append(keep, tok)
+			}
+		}
+		o.count(fmt.Sprintf("big-tree-dirs:%d", len(dirs)))
+		o.emit(fmt.Sprintf("visobig %d %v", len(dirs), ps3), strings.Join(keep, " "), "", fmt.Sprintf("big%d", ndirs))
+	})
+}
+
 func visoRunTree(o *out, r *rng, t *tree, dir string, ps3 bool, opsPer int, key string) {
 	ti := key
 	{
@@ -798,12 +843,15 @@ func init() {
 		if thorough {
 			visoStream(o, r, 300, 60, true)
 			visoHuge(o, r, 18)
+			visoBig(o, r, 1100)
+			visoBig(o, r, 2600)
 			c18Wide(o, r, 24)
 		} else {
 			c18Wide(o, r, 4)
 			visoStream(o, r, 34, 25, false)
 			visoStream(o, r, 6, 25, true) // a few trees with sparse multi-GiB files (multi-extent records)
 			visoHuge(o, r, 6)
+			visoBig(o, r, 1050)
 		}
 	}
 	replayFns["viso"] = func(line string) (string, string) {
